@@ -352,12 +352,16 @@ func vTransNewProxy() *vTransProxy {
 	return p
 }
 
+// One direction of a proxied link. The two directions end independently, as they do on a real TCP connection: when the
+// follower closes its socket right after writing (Close writes the will commands and closes), everything it wrote must still
+// reach the leader even though the leader's answers can no longer be delivered to it.
 func (l *vTransPLink) pump(up bool) {
 	src, dst := l.fc, l.lc
 	if !up {
 		src, dst = l.lc, l.fc
 	}
 	tmp := make([]byte, 8192)
+	dstGone := false
 	for {
 		n, err := src.Read(tmp)
 		if n > 0 {
@@ -376,18 +380,27 @@ func (l *vTransPLink) pump(up bool) {
 				}
 			}
 			l.mu.Unlock()
-			if !up && l.px != nil {
+			if !up && l.px != nil && !dstGone {
 				if d := atomic.LoadInt64(&l.px.delay); d > 0 {
 					time.Sleep(time.Duration(d))
 				}
 			}
-			if _, werr := dst.Write(tmp[:n]); werr != nil {
-				break
-			}
-			if !up {
-				l.mu.Lock()
-				l.downSent += int64(n)
-				l.mu.Unlock()
+			if !dstGone {
+				if _, werr := dst.Write(tmp[:n]); werr != nil {
+					dstGone = true
+					if up {
+						break // the leader is gone: nothing to proxy any more
+					}
+					// the follower's socket is gone: its answers are undeliverable (recorded, discarded); the other direction
+					// goes on until it has carried everything the follower wrote
+					l.mu.Lock()
+					l.dead = true
+					l.mu.Unlock()
+				} else if !up {
+					l.mu.Lock()
+					l.downSent += int64(n)
+					l.mu.Unlock()
+				}
 			}
 		}
 		if err != nil {
@@ -397,6 +410,14 @@ func (l *vTransPLink) pump(up bool) {
 	l.mu.Lock()
 	l.dead = true
 	l.mu.Unlock()
+	if up && !dstGone {
+		// the follower's side has ended: tell the leader (FIN after the last byte); the leader closes, which ends the other direction
+		if tc, ok := l.lc.(*net.TCPConn); ok {
+			_ = tc.CloseWrite()
+			time.AfterFunc(2*time.Second, func() { _ = l.lc.Close(); _ = l.fc.Close() })
+			return
+		}
+	}
 	_ = l.fc.Close()
 	_ = l.lc.Close()
 }
